@@ -16,11 +16,15 @@ import (
 // ---------------------------------------------------------------------------------------------
 // C12: error replies keep their name and parameters end to end.
 
-type errDisp struct{ refusals *int }
+type errDisp struct {
+	refusals *int
+	done     int // invocations that have returned
+}
 
 func (e *errDisp) VarlinkGetName() string        { return "t.e" }
 func (e *errDisp) VarlinkGetDescription() string { return "interface t.e" }
 func (e *errDisp) VarlinkDispatch(ctx context.Context, c varlink.Call, method string) error {
+	defer func() { e.done++ }()
 	var in struct {
 		Name   string           `json:"name"`
 		Params *json.RawMessage `json:"params"`
@@ -216,7 +220,8 @@ func c12Body(d c12Desc, tier string) func() {
 		}
 		s, _ := varlink.NewService("v", "p", "1", "u")
 		refusals := 0
-		s.RegisterInterface(&errDisp{refusals: &refusals})
+		ed := &errDisp{refusals: &refusals}
+		s.RegisterInterface(ed)
 		w.S = s
 		w.Ctx = vnet.NewCtx("serve")
 		l := vnet.NewListener("L0")
@@ -352,6 +357,19 @@ func c12Body(d c12Desc, tier string) func() {
 					st.refused++
 					if refusals != before+1 || err != nil || out["refused"] != true {
 						fail("error name %q is not of the form <interface>.<Name> outside org.varlink.service: ReplyError must refuse it and write nothing; refused=%v client got out=%v err=%v frame=%s", name, refusals != before, out, err, short(lastFrame()))
+					}
+					if pi == 0 && st.fail == "" {
+						// the same on a call that wants no reply: the handler is told all the same that the name is refused
+						before, doneBefore, nlog := refusals, ed.done, len(c.Log)
+						if _, err := conn.Send(live, "t.e.Err", in, varlink.Oneway); err != nil {
+							fail("oneway call: %v", err)
+							continue
+						}
+						vsched.Yield("wait-oneway-handler", "H", func() bool { return ed.done > doneBefore })
+						st.calls++
+						if refusals != before+1 || len(c.Log) != nlog || c.Pending() != 0 {
+							fail("error name %q on a oneway call: ReplyError must refuse it (and nothing is written); refused=%v frames written=%d", name, refusals != before, len(c.Log)-nlog)
+						}
 					}
 					continue
 				}
